@@ -558,6 +558,9 @@ func createOutSeg(vodFS fs.FS, a *asset, cfg *ResponseConfig, segmentPart string
 
 	switch cfg.getRepType(segmentPart) {
 	case segmentNumber, timeLineNumber:
+		if segID > math.MaxUint32 {
+			return so, errNotFound // Segment numbers are 32-bit: a larger one must not wrap around to another segment
+		}
 		nr := uint32(segID)
 		if nr < uint32(cfg.getStartNr()) {
 			return so, errNotFound
@@ -596,6 +599,9 @@ func findSegMeta(a *asset, cfg *ResponseConfig, segmentPart string, nowMS int) (
 	} else {
 		switch cfg.getRepType(segmentPart) {
 		case segmentNumber, timeLineNumber:
+			if segID > math.MaxUint32 {
+				return sm, errNotFound // Segment numbers are 32-bit: a larger one must not wrap around to another segment
+			}
 			nr := uint32(segID)
 			if nr < uint32(cfg.getStartNr()) {
 				return sm, errNotFound
@@ -651,6 +657,9 @@ func findRefSegMeta(a *asset, cfg *ResponseConfig, segmentPart string, nowMS int
 	var err error
 	switch cfg.getRepType(segmentPart) {
 	case segmentNumber, timeLineNumber:
+		if segID > math.MaxUint32 {
+			return refMeta, errNotFound // Segment numbers are 32-bit: a larger one must not wrap around to another segment
+		}
 		outSegNr := uint32(segID)
 		if outSegNr < uint32(cfg.getStartNr()) {
 			return refMeta, errNotFound
